@@ -118,9 +118,9 @@ def check_shared_compiler(case, stats):
 
 def gh_compile_proj(comp, doc):
     import json
-    from vlib.refcompile import proj_c06, proj_c08
+    from vlib.refcompile import proj_c06, proj_c08, proj_c10
     pk = comp.compile(json.loads(json.dumps(doc)))
-    return (proj_c07(pk), proj_c06(pk), proj_c08(pk))
+    return (proj_c07(pk), proj_c06(pk), proj_c08(pk), proj_c10(pk))
 
 
 def unit_shared(a):
